@@ -15,6 +15,12 @@ LEVEL = "proof"
 # ------------------------------------------------------------------ values (Python side: generation and classification only)
 # ('n',) ('t',) ('f',) ('i', int) ('d', bits) ('y', int) ('s', bytes) ('b', bytes) ('e', raised, bytes)
 # ('L', [v]) ('M', [(key bytes, v)]) ('S', [v])
+# an error may carry its chain: ('e', raised, full message, (id, base message, (prefix, ...))) - the Go error is the base error
+# `id` (one object per id and message within a case, as a sentinel) wrapped once per prefix with "%s: %w"; the model and the laws
+# know the message and the raised flag only
+# ('o', kind, id, variant): a value of a kind without a literal spelling (time, builtin, function, module, list / int iterator,
+# buffer, channel, float_slice, partial); the same (kind, id, variant) is the same object within a case, another id with the same
+# variant another object with the same content.  Outside the model: judged by the laws alone
 
 INF_MAG = 0x7FF0000000000000
 SIGN = 1 << 63
@@ -39,7 +45,11 @@ def text(v):
     if k == "b":
         return "b=" + v[1].hex()
     if k == "e":
+        if len(v) > 3:
+            return "E%d=%s" % (1 if v[1] else 0, "/".join([str(v[3][0]), v[3][1].hex()] + [x.hex() for x in v[3][2]]))
         return "e%d=%s" % (1 if v[1] else 0, v[2].hex())
+    if k == "o":
+        return "O=%s/%d/%d" % (v[1], v[2], v[3])
     if k == "L":
         return " ".join(["L%d" % len(v[1])] + [text(x) for x in v[1]])
     if k == "S":
@@ -47,6 +57,26 @@ def text(v):
     if k == "M":
         return " ".join(["M%d" % len(v[1])] + ["k=%s %s" % (kk.hex(), text(x)) for kk, x in v[1]])
     raise ValueError(v)
+
+
+def chain_err(raised, ident, base, prefixes):
+    msg = base
+    for px in prefixes:
+        msg = px + b": " + msg
+    return ("e", raised, msg, (ident, base, tuple(prefixes)))
+
+
+def model_text(line):
+    """the case line as the model reads it: an error is its message and its raised flag"""
+    if "E" not in line:
+        return line
+    out = []
+    for t in line.split(" "):
+        if t.startswith("E0=") or t.startswith("E1="):
+            v, _ = parse_text([t])
+            t = "e%d=%s" % (1 if v[1] else 0, v[2].hex())
+        out.append(t)
+    return " ".join(out)
 
 
 def children(v):
@@ -69,6 +99,10 @@ def has_nan(v):
     return anywhere(v, is_nan)
 
 
+def has_time(v):
+    return anywhere(v, lambda x: x[0] == "o" and x[1] == "time")
+
+
 def has_kind(v, k):
     return anywhere(v, lambda x: x[0] == k)
 
@@ -88,6 +122,8 @@ TAGNAME = {"n": "nil", "t": "bool", "f": "bool", "i": "int", "d": "float", "y": 
 
 
 def tag(v):
+    if v[0] == "o":
+        return "o:" + v[1]
     return TAGNAME[v[0]]
 
 
@@ -164,6 +200,64 @@ BYTES = [0, 1, 2, 3, 7, 127, 128, 254, 255]
 STRS = [b"", b"a", b"b", b"ab", b"aa", b"ba", b"A", "é".encode(), "世界".encode(), b"a\x00", b"\xff", b"\xc3", b"z",
         "aé".encode(), b"1", b" "]
 MSGS = [b"", b"a", b"b", b"boom"]
+BASES = [b"a", b"b", b"", b"a: b", b"a: a", b"boom"]
+PREFIXES = [b"a", b"a", b"", b"outer"]
+
+
+OPAQUE = ["time", "time", "builtin", "function", "module", "listiter", "intiter", "buffer", "chan", "floatslice", "partial"]
+
+
+def gen_opaque(r, kind=None):
+    kind = kind or r.choice(OPAQUE)
+    return ("o", kind, r.below(2), r.below(4 if kind == "time" else 3))
+
+
+def cousin_opaque(r, v):
+    """the same object, another object with the same content, the same kind with another content, another kind"""
+    c = r.below(8)
+    if c < 2:
+        return v
+    if c < 4:
+        return ("o", v[1], 1 - v[2], v[3])
+    if c < 7:
+        return gen_opaque(r, v[1])
+    return gen_opaque(r)
+
+
+def gen_error(r):
+    """an error value: plain, or with a chain of wrapped errors (up to three layers over one of three base errors)"""
+    if r.chance(1, 2):
+        return ("e", r.chance(1, 2), r.choice(MSGS))
+    return chain_err(r.chance(1, 4), r.below(3), r.choice(BASES), [r.choice(PREFIXES) for _ in range(r.below(4))])
+
+
+def cousin_error(r, v):
+    """an error related to v: the same Go error again, an error that wraps it, the error it wraps, an error with the same
+    message and another chain (another base object, a flat error, the layers cut elsewhere), the other raised flag"""
+    raised = v[1]
+    if len(v) > 3:
+        ident, base, pxs = v[3][0], v[3][1], list(v[3][2])
+    else:
+        ident, base, pxs = 0, v[2], []
+    c = r.below(9)
+    if c == 0:
+        return v
+    if c in (1, 2):
+        return chain_err(raised, ident, base, pxs + [r.choice(PREFIXES)])
+    if c == 3 and pxs:
+        return chain_err(raised, ident, base, pxs[:-1])
+    if c == 4 and pxs:
+        return chain_err(raised, ident, base, [])
+    if c == 5:
+        return chain_err(raised, (ident + 1) % 3, base, pxs)
+    if c == 6:
+        return ("e", raised, v[2])
+    if c == 7 and pxs:
+        # the same message with the innermost layer folded into the base message
+        return chain_err(raised, ident, pxs[0] + b": " + base, pxs[1:])
+    if c == 8:
+        return chain_err(not raised, ident, base, pxs)
+    return chain_err(raised, ident, base, pxs)
 KEYS = [b"", b"a", b"b", b"k", "é".encode()]
 
 
@@ -205,7 +299,9 @@ def gen_float(r, nan_ok=False):
 
 
 def gen_scalar(r, nan_ok=False):
-    c = r.below(16)
+    c = r.below(17)
+    if c == 16:
+        return gen_opaque(r)
     if c == 0:
         return ("n",)
     if c == 1:
@@ -220,7 +316,7 @@ def gen_scalar(r, nan_ok=False):
         return ("s", r.choice(STRS))
     if c == 14:
         return ("b", r.choice(STRS))
-    return ("e", r.chance(1, 2), r.choice(MSGS))
+    return gen_error(r)
 
 
 def gen_hashable(r, nan_ok=False):
@@ -270,6 +366,10 @@ def dedup_set(items):
 def cousin(r, v):
     """a value related to v: equal under ==, or nearly so (other numeric type, string<->byte_slice, +-0, neighbour)"""
     k = v[0]
+    if k == "o":
+        return cousin_opaque(r, v)
+    if k == "e":
+        return cousin_error(r, v)
     if k == "i":
         c = r.below(6)
         if c == 0:
@@ -376,7 +476,7 @@ def cousin(r, v):
     return v
 
 
-HOMO = ["int", "float", "byte", "string", "bool", "lint", "lstr", "smallnum", "mixnum", "err", "bytes"]
+HOMO = ["int", "float", "byte", "string", "bool", "lint", "lstr", "smallnum", "mixnum", "err", "bytes", "opaque", "otime"]
 
 
 def gen_homo(r, kind):
@@ -401,7 +501,11 @@ def gen_homo(r, kind):
     if kind == "mixnum":
         return r.choice([gen_int(r), gen_float(r), ("y", r.choice(BYTES))])
     if kind == "err":
-        return ("e", r.chance(1, 2), r.choice(MSGS))
+        return gen_error(r)
+    if kind == "opaque":
+        return gen_opaque(r, r.choice(OPAQUE[2:]))
+    if kind == "otime":
+        return gen_opaque(r, "time")
     if kind == "bytes":
         return ("b", r.choice(STRS))
     raise ValueError(kind)
@@ -455,6 +559,7 @@ class Findings:
 
 K_MIX = "int-float-rounding-not-transitive"
 K_SETX = "set-membership-cross-type"
+K_TIME = "time-compare-same-instant-both-less"
 
 
 def oracle_pair(a, b, o, route, F, stats):
@@ -489,6 +594,9 @@ def oracle_pair(a, b, o, route, F, stats):
             le_ab, le_ba = o["ops"][1], o["ops"][5]
             if le_ab != "1" and le_ba != "1":
                 F.add("total preorder: totality", case, "neither a <= b nor b <= a")
+    if o["ops"][0] == "1" and o["ops"][4] == "1" and not (numeric(a) and numeric(b)) and t is None:
+        # outside the types the property lists: still, no order reports a < b together with b < a
+        F.add("strict order is asymmetric", case, "a < b and b < a", K_TIME if (has_time(a) and has_time(b)) else None)
     if numeric(a) and numeric(b):
         stats["numeric_pairs"] += 1
         if o["ops"][0] == "1" and o["ops"][4] == "1":
@@ -589,6 +697,8 @@ def oracle_sorted(l, line, route, F, stats):
     stats["sort_comparable"] += 1
     mixed = anywhere(l, big_int) and has_kind(l, "d")
     known = K_MIX if mixed else None
+    if has_time(l) and known is None:
+        known = K_TIME      # times of one instant in different locations are each < the other: no order to sort by
     if f[0] != "ROK":
         if n >= 2:
             F.add("sorted: mutually comparable input is sorted", case, "sorted() answered %s" % f[0])
@@ -699,7 +809,7 @@ def gen_plain(r, depth=1):
     """a value without errors and NaN (errors as script globals are a subject of their own)"""
     while True:
         v = gen_value(r, depth) if r.chance(1, 4) else gen_scalar(r)
-        if not has_kind(v, "e") and not has_nan(v):
+        if not has_kind(v, "e") and not has_kind(v, "o") and not has_nan(v):
             return v
 
 
@@ -1111,6 +1221,12 @@ def parse_text(toks, pos=0):
         return ("b", bytes.fromhex(t[2:])), pos + 1
     if t.startswith("e0=") or t.startswith("e1="):
         return ("e", t[1] == "1", bytes.fromhex(t[3:])), pos + 1
+    if t.startswith("O="):
+        parts = t[2:].split("/")
+        return ("o", parts[0], int(parts[1]), int(parts[2])), pos + 1
+    if t.startswith("E0=") or t.startswith("E1="):
+        parts = t[3:].split("/")
+        return chain_err(t[1] == "1", int(parts[0]), bytes.fromhex(parts[1]), [bytes.fromhex(x) for x in parts[2:]]), pos + 1
     if t[0] == "i":
         return ("i", int(t[1:])), pos + 1
     if t[0] == "y":
@@ -1190,7 +1306,8 @@ def run_sharded(exe, lines, work, name, shards):
 
 def load_known_ids():
     ids = {}
-    for fn in ("known_findings.jsonl",):
+    import glob
+    for fn in ["known_findings.jsonl"] + sorted(os.path.basename(x) for x in glob.glob(os.path.join(C.VERIF, "known_findings.*.jsonl"))):
         p = os.path.join(C.VERIF, fn)
         if not os.path.exists(p):
             continue
@@ -1251,7 +1368,7 @@ def _body(res, tier, obs, model, work, proved):
     shards = C.NCPU
     with ThreadPoolExecutor(max_workers=2) as ex:
         fg = ex.submit(run_sharded, obs, lines, work, "go", shards)
-        fm = ex.submit(run_sharded, model, lines, work, "mo", shards)
+        fm = ex.submit(run_sharded, model, ["Y n" if "O=" in l else model_text(l) for l in lines], work, "mo", shards)
         (go, e1), (mo, e2) = fg.result(), fm.result()
     if go is None or mo is None:
         res.violation({"property": PROP, "kind": "harness-run-failed", "stage": "c15obs / model_ops", "log": e1 + " " + e2},
@@ -1263,6 +1380,8 @@ def _body(res, tier, obs, model, work, proved):
     ndiff = 0
     badcase = 0
     for i, (g, m) in enumerate(zip(go, mo)):
+        if "O=" in lines[i]:
+            continue        # values outside the model (no literal spelling): judged by the laws alone
         if g.startswith("BADCASE") or m.startswith("BADCASE"):
             badcase += 1
         if g != m:
